@@ -21,6 +21,8 @@ var pureLib = map[string]bool{
 	"net.JoinHostPort": true, "net.SplitHostPort": true,
 	"math/rand.Uint32": true, "math/rand/v2.Uint32": true,
 	"(time.Duration).String": true,
+	"net/netip.ParseAddr": true, "net/netip.MustParseAddr": true, "net.LookupIP": true, "(net.IP).To16": true,
+
 }
 
 var purePkgs = map[string]bool{"strings": true, "unicode": true, "unicode/utf8": true, "math/bits": true}
@@ -305,6 +307,13 @@ func init() {
 		c.safety(not(eq(c.args[0].L[0], "0")), "nil *url.URL")
 		return Val{L: []string{ex.alloc(c.st)}}
 	})
+	// constructors of opaque gopacket objects: a fresh, non-nil object
+	reg("github.com/google/gopacket.NewDecodingLayerParser", func(c *callCtx) Val { return Val{L: []string{c.ex.alloc(c.st)}} })
+	serBuf := func(c *callCtx) Val {
+		return Val{L: []string{num(int64(c.ex.w.typeIDByName("*gopacket.serializeBuffer"))), c.ex.alloc(c.st)}}
+	}
+	reg("github.com/google/gopacket.NewSerializeBuffer", serBuf)
+	reg("github.com/google/gopacket.NewSerializeBufferExpectedSize", serBuf)
 	reg("math.Abs", func(c *callCtx) Val {
 		x := c.args[0].L[0]
 		return scalar(types.Typ[types.Float64], ite(app(">=", x, "0.0"), x, app("-", x)))
